@@ -491,6 +491,10 @@ pub fn check_program(db: &Db, prog: &Program, insts: &[Inst]) -> Outcome {
 /// Replay one recorded AP violation without the explorer: compile the recorded PRQL, execute it on
 /// the recorded instance and compare with the recorded expectation.
 pub fn replay(v: &serde_json::Value) -> i32 {
+    // differential drivers: two programs that must return the same rows on the recorded instance
+    if let Some(other) = v.get("in_place").or_else(|| v.get("by_name")).and_then(|x| x.as_str()) {
+        return replay_pair(v, v["prql"].as_str().unwrap_or(""), other);
+    }
     let prql = v["prql"].as_str().unwrap_or("");
     let d = match v["dialect"].as_str() {
         Some("generic") => Dialect::Generic,
@@ -560,6 +564,57 @@ pub fn replay(v: &serde_json::Value) -> i32 {
             }
         }
     }
+}
+
+fn parse_inst_text(s: &str) -> Inst {
+    let rows = |part: &str| -> Vec<Vec<V>> {
+        let inner = part.split('[').nth(1).and_then(|x| x.split(']').next()).unwrap_or("");
+        inner
+            .split(')')
+            .filter_map(|r| r.trim().strip_prefix('('))
+            .map(|r| r.split(',').map(|c| match c.trim() { "NULL" => V::Null, x => x.parse::<i64>().map(V::Int).unwrap_or_else(|_| x.parse::<f64>().map(V::Real).unwrap_or(V::Null)) }).collect())
+            .collect()
+    };
+    let (t, u) = s.split_once(" u(a,d)=").unwrap_or((s, "[]"));
+    Inst { name: "replay".into(), t: rows(t), u: rows(u) }
+}
+
+fn replay_pair(v: &serde_json::Value, first: &str, second: &str) -> i32 {
+    let d = match v["dialect"].as_str() {
+        Some("generic") => Dialect::Generic,
+        _ => Dialect::SQLite,
+    };
+    let compile = |s: &str| match guard(|| prqlc::compile(s, &opts(d))) {
+        Ok(Ok(sql)) => Ok(sql),
+        Ok(Err(e)) => Err(err_text(&e)),
+        Err(p) => Err(format!("panic at {}: {}", p.site, p.msg)),
+    };
+    let (a, b) = (compile(first), compile(second));
+    println!("first:  {first}\n  -> {a:?}\nsecond: {second}\n  -> {b:?}");
+    let (Ok(a), Ok(b)) = (a, b) else {
+        println!("FAIL (one of the two forms does not compile)");
+        return 1;
+    };
+    let db = Db::new();
+    let insts: Vec<Inst> = match v["instance"].as_str() {
+        Some(s) => vec![parse_inst_text(s)],
+        None => crate::inst::pool(),
+    };
+    for inst in &insts {
+        db.load(inst);
+        let (ra, rb) = (db.query(&a), db.query(&b));
+        let same = match (&ra, &rb) {
+            (Ok((n1, r1)), Ok((n2, r2))) => n1.len() == n2.len() && multiset_eq(r1, r2),
+            (Err(_), Err(_)) => true,
+            _ => false,
+        };
+        if !same {
+            println!("on {}: {:?} vs {:?}\nFAIL", inst.show(), ra.map(|r| show_rows(&r.1)), rb.map(|r| show_rows(&r.1)));
+            return 1;
+        }
+    }
+    println!("OK");
+    0
 }
 
 #[cfg(test)]
